@@ -383,8 +383,17 @@ class Exec(HeapMixin, StreamMixin, Engine):
                 return simp(cdiv(a, z3.IntVal(1 << cb)))
             if op == "&" and cb is not None and cb >= 0 and (cb & (cb + 1)) == 0:
                 return simp(a % (cb + 1))          # mask with 2^k-1 on a non-negative value
-            return self.uf("bit" + {"&": "and", "|": "or", "^": "xor", "<<": "shl", ">>": "shr"}[op],
-                           z3.IntSort(), z3.IntSort(), z3.IntSort())(a, b)
+            bitf = self.uf("bit" + {"&": "and", "|": "or", "^": "xor", "<<": "shl", ">>": "shr"}[op],
+                           z3.IntSort(), z3.IntSort(), z3.IntSort())
+            if op == "|":
+                # flag accumulation  x |= (p != q):  x | ite(c,1,0) = ite(c, x|1, x)   (x|0 = x exactly)
+                for (u, w) in ((a, b), (b, a)):
+                    sw = z3.simplify(w)
+                    if z3.is_app_of(sw, z3.Z3_OP_ITE) and const_int(sw.arg(1)) == 1 and const_int(sw.arg(2)) == 0:
+                        return z3.If(sw.arg(0), bitf(u, z3.IntVal(1)), u)
+                    if z3.is_app_of(sw, z3.Z3_OP_ITE) and const_int(sw.arg(1)) == 0 and const_int(sw.arg(2)) == 1:
+                        return z3.If(sw.arg(0), u, bitf(u, z3.IntVal(1)))
+            return bitf(a, b)
         raise Unsupported("binary " + op)
 
     def fop(self, op, a, b, n):
